@@ -68,6 +68,59 @@ func descArgs(call *ssa.Call) string {
 }
 
 // descHash renders nested hash-helper calls readably: hash(a, b), saltHash(x, s) …
+// asModExp: v is new(big.Int).Exp(base, exp, mod), in place or as the result of a
+// same-package helper whose only return is that expression over its parameters.
+func asModExp(v ssa.Value) (base, exp, mod ssa.Value, ok bool) {
+	call := engine.CallOf(v)
+	if call == nil {
+		return nil, nil, nil, false
+	}
+	if engine.CalleeID(call.Common()) == "(*math/big.Int).Exp" {
+		a := call.Common().Args
+		return a[1], a[2], a[3], true
+	}
+	h := call.Common().StaticCallee()
+	if h == nil || len(h.Blocks) == 0 || call.Parent() == nil || h.Pkg != call.Parent().Pkg {
+		return nil, nil, nil, false
+	}
+	rets := engine.Returns(h)
+	if len(rets) != 1 || len(rets[0].Results) != 1 {
+		return nil, nil, nil, false
+	}
+	inner := isCallTo(rets[0].Results[0], "(*math/big.Int).Exp")
+	if inner == nil {
+		return nil, nil, nil, false
+	}
+	a := inner.Common().Args
+	base, exp, mod = argOfParam(a[1], call), argOfParam(a[2], call), argOfParam(a[3], call)
+	return base, exp, mod, base != nil && exp != nil && mod != nil
+}
+
+// asBigFromBytes: v is new(big.Int).SetBytes(b), in place or through such a helper.
+func asBigFromBytes(v ssa.Value) (ssa.Value, bool) {
+	call := engine.CallOf(v)
+	if call == nil {
+		return nil, false
+	}
+	if engine.CalleeID(call.Common()) == "(*math/big.Int).SetBytes" {
+		return call.Common().Args[1], true
+	}
+	h := call.Common().StaticCallee()
+	if h == nil || len(h.Blocks) == 0 || call.Parent() == nil || h.Pkg != call.Parent().Pkg {
+		return nil, false
+	}
+	rets := engine.Returns(h)
+	if len(rets) != 1 || len(rets[0].Results) != 1 {
+		return nil, false
+	}
+	inner := isCallTo(rets[0].Results[0], "(*math/big.Int).SetBytes")
+	if inner == nil {
+		return nil, false
+	}
+	b := argOfParam(inner.Common().Args[1], call)
+	return b, b != nil
+}
+
 func descHash(v ssa.Value) string {
 	if call := engine.CallOf(v); call != nil {
 		id := engine.CalleeID(call.Common())
@@ -160,14 +213,18 @@ func c15(c *engine.Ctx) {
 		if len(rets) == 1 {
 			got = descHash(rets[0].Results[0]) + " | " + descHash(rets[0].Results[1])
 		}
-		x := "(*math/big.Int).SetBytes(new big.Int, secondary(p:password, p:clientSalt, p:serverSalt))"
-		_ = x
-		okX := strings.Contains(got, ".secondary(p:s, p:password, p:clientSalt, p:serverSalt)")
-		okV := false
+		// x = big-endian integer of secondary(password, salt1, salt2); v = Exp(g, x, p)
+		// — each written in place or through a one-line helper (bigFromBytes, bigExp)
+		okX, okV := false, false
 		if len(rets) == 1 {
-			if e := isCallTo(rets[0].Results[1], "(*math/big.Int).Exp"); e != nil {
-				a := e.Common().Args
-				okV = a[1] == ssa.Value(fn.Params[4]) && a[3] == ssa.Value(fn.Params[5]) && engine.CallOf(a[2]) != nil && a[2] == rets[0].Results[0]
+			if bs, isB := asBigFromBytes(rets[0].Results[0]); isB {
+				if sc := isCallTo(bs, "(crypto/srp.SRP).secondary"); sc != nil {
+					a := sc.Common().Args
+					okX = len(a) == 4 && a[1] == ssa.Value(fn.Params[1]) && a[2] == ssa.Value(fn.Params[2]) && a[3] == ssa.Value(fn.Params[3])
+				}
+			}
+			if base, exp, mod, isE := asModExp(rets[0].Results[1]); isE {
+				okV = base == ssa.Value(fn.Params[4]) && mod == ssa.Value(fn.Params[5]) && engine.CallOf(exp) != nil && exp == rets[0].Results[0]
 			}
 		}
 		c.Check(okX && okV, "C15.R2", "SRP.computeXV/shape", fn.Pos(), "x must be PH2(password, salt1, salt2) and v = g^x mod p; got %s", got)
